@@ -32,6 +32,12 @@ def run_double(ctx, cases, backends=spine.ALL_BACKENDS, precond="ruiz", name="db
             ctx.violation("C06.crash backend=%s %s" % (b, tag), "driver exited with rc=%d: %s" % (rc, o[-600:]), {"cases_file_head": open(cf).read()[:3000], "backend": b}, concrete=True)
             continue
         ctx.ob(obn, "harness", True, "")
+        # recoverable sanitizer reports (enum loads) are printed on stderr: each distinct report is a violation candidate
+        import re as _re
+        for m_ in sorted(set(_re.findall(r"([\w./+-]+:\d+):\d+: runtime error: ([^\n]*)", vlib.last_stderr))):
+            loc = m_[0].split("/")[-1]
+            msg = _re.sub(r"\d{3,}", "N", m_[1])
+            ctx.violation("C06.ubsan backend=%s at=%s %s" % (b, loc, msg.replace(" ", "_")[:80]), "UBSan: %s: %s" % m_, {"backend": b, "cases_file_head": open(cf).read()[:2000]})
         obs = vlib.parse_obs(o)
         out[b] = {}
         for cname, lines in obs.items():
